@@ -32,6 +32,10 @@ import (
 func ParseQuery(q string) (pq *proto.Query, err error) {
 	p := newParser(q)
 
+	// let the lexer goroutine run to completion; otherwise it stays blocked forever
+	// sending the next item whenever parsing stops before the end of the input.
+	defer p.lexer.drain()
+
 	defer p.recover(&err)
 
 	pq, err = p.parse()
@@ -358,6 +362,13 @@ func lex(input string) *lexer {
 func (l *lexer) run() {
 	for l.state = lexText; l.state != nil; {
 		l.state = l.state(l)
+	}
+	close(l.items)
+}
+
+// drain consumes the remaining items so that the lexer goroutine terminates.
+func (l *lexer) drain() {
+	for range l.items {
 	}
 }
 
